@@ -98,6 +98,16 @@ more("C05", "Error paths of driver-level blocking helpers (playback with failing
 more("C10", "QueueSel is judged by its effect (the device's selection at every per-queue access), so a correct selection cache is accepted; InterruptStatus values include bits the driver does not know.")
 more("C18", "wait_for_event is used in place of poll whenever the next packet is one the protocol says is reported.")
 
+# Corrections after the two rounds of property-preserving changes (DESIGN section 9).
+more("C01", "The model follows the form of the chain the device sees (a queue with indirect descriptors may publish a chain directly, given the descriptors).")
+more("C05", "The should_notify sweep asks exactly once per batch ('since the driver last checked').")
+more("C10", "Reads of an operation's own read/write registers and stopping a live queue before programming it are accepted.")
+more("C15", "Transmission is judged as a byte stream, not request by request.")
+more("C16", "A receive buffer whose completion was malformed may be given up or put back on the queue; either way every buffer stays accounted for.")
+more("C17", "One send may go out as several data packets; unsolicited credit updates with true values are accepted.")
+more("C18", "One poll may handle several packets as long as all but the last are handled silently; a RST towards an address without connection is accepted.")
+more("C19", "Completions may be fetched in a batch and handed out one per call; a buffer whose completion was oversized may be given up or posted again.")
+
 TODO_REASON = "check not built yet in this round (planned, see DESIGN.md section 11); no claim is made"
 ALL = ["C%02d" % i for i in range(1, 21)]
 
